@@ -38,6 +38,11 @@ pub enum TreeOp {
     Reopen,
     /// close, then create a tree of ANOTHER depth at the same persistent location
     Recreate(u64),
+    /// flush (close_db_connection) and carry on with the same instance
+    Flush,
+    /// drop the instance WITHOUT a flush of its own and open the location again (no crash: the storage engine
+    /// writes everything back when its handle is dropped)
+    DropReopen,
 }
 
 /// value codes: 0 = default leaf, 1 = a, 2 = b, 3 = c (only used as "a different value")
@@ -68,6 +73,8 @@ impl TreeOp {
             TreeOp::ComputeRoot => json!({"op":"ComputeRoot"}),
             TreeOp::Reopen => json!({"op":"Reopen"}),
             TreeOp::Recreate(d) => json!({"op":"Recreate","depth":d}),
+            TreeOp::Flush => json!({"op":"Flush"}),
+            TreeOp::DropReopen => json!({"op":"DropReopen"}),
         }
     }
     pub fn from_json(v: &Value) -> Option<TreeOp> {
@@ -88,6 +95,8 @@ impl TreeOp {
             "ComputeRoot" => TreeOp::ComputeRoot,
             "Reopen" => TreeOp::Reopen,
             "Recreate" => TreeOp::Recreate(u("depth")?),
+            "Flush" => TreeOp::Flush,
+            "DropReopen" => TreeOp::DropReopen,
             _ => return None,
         })
     }
@@ -217,7 +226,7 @@ pub fn model_step(t: &IdealTree, op: &TreeOp) -> Expect {
             }
         }
         TreeOp::Reset => Expect { ok: Some(IdealTree::new(t.depth)), err: vec![] },
-        TreeOp::ComputeRoot | TreeOp::Reopen => Expect { ok: Some(same()), err: vec![] },
+        TreeOp::ComputeRoot | TreeOp::Reopen | TreeOp::Flush | TreeOp::DropReopen => Expect { ok: Some(same()), err: vec![] },
         // What creating a tree of another depth over an existing location should do is not pinned by any
         // property: refusing, or handing back the stored tree, keeps the model state; an implementation
         // that really starts a fresh tree of the requested depth is judged separately (see `judge`)
@@ -272,6 +281,10 @@ pub fn shape(pre: &IdealTree, op: &TreeOp) -> String {
             // a position explicitly written with the default value is indistinguishable, in storage,
             // from a removed one
             if (0..pre.hwm).any(|i| pre.is_written(i) && pre.leaf(i) == big(0)) { "reopen.default-valued-write-present".into() } else { "reopen".into() }
+        }
+        TreeOp::Flush => "flush".into(),
+        TreeOp::DropReopen => {
+            if (0..pre.hwm).any(|i| pre.is_written(i) && pre.leaf(i) == big(0)) { "reopen.default-valued-write-present".into() } else { "drop-reopen".into() }
         }
         TreeOp::Recreate(d) => {
             let dv = if (0..pre.hwm).any(|i| pre.is_written(i) && pre.leaf(i) == big(0)) { ".default-valued-write-present" } else { "" };
@@ -487,6 +500,22 @@ where
                 self.t = Some(nt);
                 return Ok(());
             }
+            TreeOp::Flush => {
+                if self.path.is_none() {
+                    return Ok(());
+                }
+                return e(self.t.as_mut().unwrap().close_db_connection());
+            }
+            TreeOp::DropReopen => {
+                if self.path.is_none() {
+                    return Ok(());
+                }
+                self.t = None;
+                // (the storage lock is released a few ms after the handle is gone: SledDB::load waits for it)
+                let nt = (self.mk)(self.depth, &self.path)?;
+                self.t = Some(nt);
+                return Ok(());
+            }
             TreeOp::Recreate(d2) => {
                 if self.path.is_none() {
                     return Ok(());
@@ -520,7 +549,7 @@ where
                 rem.iter().map(|r| *r as usize).collect::<Vec<_>>().into_iter(),
             )),
             TreeOp::ComputeRoot => t.compute_root().map(|_| ()).map_err(|e| e.to_string()),
-            TreeOp::Init(_) | TreeOp::Reset | TreeOp::Reopen | TreeOp::Recreate(_) => unreachable!(),
+            TreeOp::Init(_) | TreeOp::Reset | TreeOp::Reopen | TreeOp::Recreate(_) | TreeOp::Flush | TreeOp::DropReopen => unreachable!(),
         }
     }
     fn reset(&mut self) -> Result<(), String> {
@@ -540,7 +569,7 @@ where
     T::Proof: Surgery + ZerokitMerkleProof<Index = u8, Hasher = T::Hasher>,
 {
     fn apply(&mut self, op: &TreeOp) -> Outcome {
-        if matches!(op, TreeOp::Reopen | TreeOp::Recreate(_)) && self.path.is_none() {
+        if matches!(op, TreeOp::Reopen | TreeOp::Recreate(_) | TreeOp::Flush | TreeOp::DropReopen) && self.path.is_none() {
             return Outcome::NotApplicable;
         }
         match guard(|| self.do_apply(op)) {
@@ -713,7 +742,7 @@ impl Backend for RlnBackend {
                 }
                 TreeOp::Init(vs) => e(rln.init_tree_with_leaves(rd(vals(vs)))),
                 TreeOp::Reset => e(rln.set_tree(depth)),
-                TreeOp::ComputeRoot | TreeOp::Reopen | TreeOp::Recreate(_) => Ok(None),
+                TreeOp::ComputeRoot | TreeOp::Reopen | TreeOp::Recreate(_) | TreeOp::Flush | TreeOp::DropReopen => Ok(None),
             }
         });
         match r {
@@ -821,7 +850,7 @@ impl Focus {
     /// does this property judge transitions made by `op`?
     fn owns_op(&self, op: &TreeOp, kind: Kind) -> bool {
         match self {
-            Focus::C06 => !op.is_batch() && !matches!(op, TreeOp::Reopen | TreeOp::ComputeRoot | TreeOp::Recreate(_)),
+            Focus::C06 => !op.is_batch() && !matches!(op, TreeOp::Reopen | TreeOp::ComputeRoot | TreeOp::Recreate(_) | TreeOp::Flush | TreeOp::DropReopen),
             Focus::C07 => true,
             // (RLN::set_leaves_from, the byte-level entry point behind Range on the RLN backend, is one of the batch entry
             // points C08 names)
@@ -1662,6 +1691,17 @@ impl TreeProp {
                 focus: f, depth: 2, ops,
                 backends: vec![(Kind::Pm, 2), (Kind::Rln, 2)],
                 nodedup_len: 2, max_len: 2, positions: all(2), full_obs: true, allow: None, dense_after: None, label: "depth2.reduced-alphabet.persistent".into(),
+            });
+        }
+        // depth 2, persistent backend only: writes into and removals from positions below the leaf count interleaved with
+        // flush, close + reopen and drop + reopen (no flush of its own), histories up to length 4 (thorough 5)
+        if matches!(f, Focus::C15 | Focus::C07) {
+            let ops = vec![TreeOp::Set(1, 1), TreeOp::Set(0, 2), TreeOp::Set(3, 1), TreeOp::Delete(1), TreeOp::Flush, TreeOp::Reopen, TreeOp::DropReopen];
+            let l = if q { 4 } else { 5 };
+            plans.push(ExploreCfg {
+                focus: f, depth: 2, ops,
+                backends: vec![(Kind::Pm, l)],
+                nodedup_len: l, max_len: l, positions: all(2), full_obs: true, allow: None, dense_after: None, label: "depth2.flush-and-reopen.persistent".into(),
             });
         }
         // depth 3: one non-default value to a deeper bound, two values to a shallower one
